@@ -166,6 +166,10 @@ func c03Check(sc *hpScenario, obs *hpObs, r *vrt.Result, report func(kind, detai
 		}
 		return
 	}
+	if f := hpFatal(r); f != "" {
+		report("fatal error in a proxy goroutine (sync: unlock of an unlocked mutex): the Go runtime ends the whole process, no recover contains it", f)
+		return
+	}
 	if r.Deadlock {
 		report("deadlock: no thread can run", strings.Join(r.Blocked, "; "))
 		return
